@@ -197,3 +197,22 @@ Proof.
   pose proof (arcswap_safe cq p0) as S. rewrite E1, E2, E3, E4 in S.
   apply (S Hg Hl (part_count_bound p0) Hvw (headroom_quot_ok cq E5) st0 sch st Hi Hr).
 Qed.
+
+(* ------ the share divided in W (exact quotient): the strict property for ALL integer inputs ------ *)
+
+Theorem arcswap_caps_i64_all in_W g vw p0 T cap st0 sch st : in_W = true ->
+  graph_ok g -> length p0 = length g -> Forall (fun x => 0 <= x) vw ->
+  let cf := config_of (share_i64 in_W) g vw p0 T cap in
+  init_state cf p0 = Some st0 -> run cf st0 sch = Some st ->
+  no_adjacent_critical g st
+  /\ cut g p0 - cut g (g_part st) = total_gain st /\ 0 <= total_gain st
+  /\ (forall q, (q < part_count p0)%nat -> load vw (g_part st) q <= Z.max (load vw p0 q) cap)
+  /\ length (g_part st) = length p0 /\ Forall (fun x => (x < part_count p0)%nat) (g_part st)
+  /\ relabelled p0 (g_part st) <= total_moves st
+  /\ (g_fin st = true -> total_gain st = md_gain (g_md st) /\ total_moves st = md_moves (g_md st)).
+Proof.
+  intros -> Hg Hl Hvw cf Hi Hr. cbn [share_i64] in cf.
+  destruct (config_of_fields headroom_quot g vw p0 T cap) as (E1 & E2 & E3 & E4 & E5). fold cf in E1, E2, E3, E4, E5.
+  pose proof (arcswap_safe cf p0) as S. rewrite E1, E2, E3, E4 in S.
+  apply (S Hg Hl (part_count_bound p0) Hvw (headroom_quot_ok cf E5) st0 sch st Hi Hr).
+Qed.
